@@ -73,6 +73,17 @@ def check(run):
     except Exception as e:       # noqa
         run.violation("broken-correspondence", {"kind": "translator"}, f"the obligations of the inline special-immediate code could not be generated: {e}", found_input=False)
         inline = None
+    # second tie (T-bits): the text of the nine encoder functions (plugin + run-time crate) translated to Lean and proved equal to the model
+    import immtrans
+    imm_tr, imm_msg = None, None
+    try:
+        imm_tr = immtrans.translate_all()
+        immtrans.emit_lean(imm_tr, os.path.join(common.GEN, "ImmCode.lean"))
+        modules.append("DynasmVerif.Props.C14Code")
+        run.coverage["trusted_base"] += ["lib/immtrans.py + lib/reloctrans.py + lib/rustexpr.py (source text of the encoders -> bit-vector IR -> Lean); count_ones / trailing_zeros / "
+                                         "rotate_left as the unrolled definitions of Model/A64Imm"]
+    except immtrans.Untranslatable as ex:
+        imm_msg = f"the special-immediate encoders can no longer be translated (lib/immtrans.py): {ex}"
     proofs_ok = common.standard_proof_step(run, modules, allow_bv_decide=True)
     found_before = len(run.violations) + len(run.known_hit)
     if not proofs_ok and hasattr(run, "broken_build"):
@@ -127,6 +138,20 @@ def check(run):
         chunks = [(reqs_i[i:i + 50000], reqs_m[i:i + 50000]) for i in range(0, len(cand), 50000)]
         res = common.parallel_map(lambda c: (plug(c[0]), model(c[1])), chunks)
         stats["queries64"] += len(cand)
+        # the translation of the source text, evaluated in python, against the compiled function (validates the translator)
+        key = {"p.logical64": "p_L64", "r.logical64": "r_L64", "p.wide64": "p_W64", "p.stretched": "p_Stretched"}.get(name)
+        if imm_tr and key:
+            flat = [a for (ai, _) in res for a in ai]
+            step = max(1, len(cand) // 1500)
+            for v, a in list(zip(cand, flat))[::step]:
+                t = immtrans.evaluate(imm_tr[key], v)
+                want_t = "panic" if t == "panic" else ("none" if t is None else f"some {t}")
+                stats["translation_validated"] = stats.get("translation_validated", 0) + 1
+                if a.split()[:2] != want_t.split()[:2]:
+                    run.violation("broken-correspondence", {"kind": "imm-translation-differs", "fn": name},
+                                  f"{name}({v:#x}): the compiled function answers `{a}`, the translation of its source text `{want_t}`", {"stream": "plug", "input": [f"enc {name} {v}"], "impl": [a]},
+                                  found_input=False)
+                    break
         done = False
         off = 0
         for (ai, am) in res:
@@ -165,6 +190,8 @@ def check(run):
     run.coverage["exhaustive"] = True
     run.coverage["distribution"] = stats
     run.coverage["samples"] = ["encsweep p.logical32", "enc p.logical64 6148914691236517205", "img logical64"]
+    if imm_msg:
+        run.violation("broken-correspondence", {"kind": "imm-translation"}, imm_msg, found_input=(len(run.violations) + len(run.known_hit)) > found_before)
     if not proofs_ok and hasattr(run, "broken_build"):
         found = (len(run.violations) + len(run.known_hit)) > found_before
         run.violation("broken-obligation", {"kind": "lean-build", "first": run.broken_build["first_error"][:200]}, run.broken_build["first_error"], run.broken_build, found_input=found)
